@@ -36,7 +36,7 @@ package authboss
 //@   ensures one_status: each WriteHeader(_, ?c) => !(before WriteHeader(_, _)) && (c == 404 || c == 401 || c == 500)
 //@   ensures storage_error_500: (emits Store.Load(_) -> (_, ?e) :: e != nil && e != ErrUserNotFound) ==>
 //@       ((emits WriteHeader(_, 500)) && !emits Next.ServeHTTP(_, _, _))
-//@   ensures never_touches_state: !emits Sess.Put(_, _) && !emits Sess.Del(_) && !emits Cook.Put(_, _) && !emits Store.Save(_)
+//@   ensures never_touches_state: !emits Sess.Put(_, _) && !emits Sess.Del(_) && !emits Sess.DelAll(_) && !emits Cook.Put(_, _) && !emits Store.Save(_)
 //@   ensures no_panic: !panics
 //@
 //@ func MountedMiddleware
@@ -72,7 +72,10 @@ package authboss
 //@   ensures finds_writer: result != nil
 //@
 //@ func setState
-//@   property C11 C07 C09 C10
+//@   property C11 C01 C02 C05 C07 C09 C10 C12 C13 C14
+//@   -- (every clause of another property that speaks about Sess.* / Cook.* events uses this
+//@   -- function through its summary - C14: the deletion that spends the OAuth2 state, C13: the
+//@   -- one that spends the e-mail authorisation, C12: the SMS code, ...)
 //@   -- (C07, C09, C10: a deletion queued by remember, expiry or logout is never dropped or
 //@   -- reordered - every call appends exactly its own event)
 //@   -- exactly one event {op, key, val} is appended to exactly the list of the store named by
@@ -135,6 +138,9 @@ package authboss
 //@       (((len(c.sessionStateEvents) > 0 && c.sessionStateRW != nil) ==> emits CS.WriteState(?rw, _, _, _) :: rw == c.sessionStateRW) &&
 //@        ((len(c.cookieStateEvents) > 0 && c.cookieStateRW != nil) ==> emits CS.WriteState(?rw2, _, _, ?e2) :: rw2 == c.cookieStateRW && e2 == c.cookieStateEvents))
 //@   ensures[C11] never_twice: panics <=> c.hasWritten
+//@   -- a store that could not take its changes is reported: the caller must not release a
+//@   -- response that looks like the changes were made (C09/C10: expiry's and logout's deletions)
+//@   ensures[C11,C09,C10] write_error_reported: each CS.WriteState(_, _, _, _) -> ?e => e != nil ==> result == e
 //@
 //@ func (*ClientStateResponseWriter).WriteHeader
 //@   property C11
@@ -143,6 +149,11 @@ package authboss
 //@   ensures flush_before_header: (each WriteHeader(?w, ?cd) => w == c.ResponseWriter && cd == code && !(after CS.WriteState(_, _, _, _)) && !(before WriteHeader(_, _))) &&
 //@       (c.hasWritten ==> !emits CS.WriteState(_, _, _, _))
 //@   ensures header_released: !panics ==> emits WriteHeader(_, _)
+//@   -- whatever the status code is (a 101 is as final as a 200): the first header write
+//@   -- delivers what is pending
+//@   ensures flushes_pending: (!c.hasWritten && !panics) ==>
+//@       (((len(c.sessionStateEvents) > 0 && c.sessionStateRW != nil) ==> emits CS.WriteState(?rw, _, _, _) :: rw == c.sessionStateRW) &&
+//@        ((len(c.cookieStateEvents) > 0 && c.cookieStateRW != nil) ==> emits CS.WriteState(?rw2, _, _, _) :: rw2 == c.cookieStateRW))
 //@   ensures later_writes_never_panic: c.hasWritten ==> !panics
 //@
 //@ func (*ClientStateResponseWriter).Write
@@ -150,6 +161,9 @@ package authboss
 //@   requires lists_distinct(c)
 //@   ensures flush_before_body: (each Write(?w, ?bb) => w == c.ResponseWriter && !(after CS.WriteState(_, _, _, _)) && !(before Write(_, _))) &&
 //@       (c.hasWritten ==> !emits CS.WriteState(_, _, _, _))
+//@   ensures flushes_pending: (!c.hasWritten && !panics && (emits Write(_, _))) ==>
+//@       (((len(c.sessionStateEvents) > 0 && c.sessionStateRW != nil) ==> emits CS.WriteState(?rw, _, _, _) :: rw == c.sessionStateRW) &&
+//@        ((len(c.cookieStateEvents) > 0 && c.cookieStateRW != nil) ==> emits CS.WriteState(?rw2, _, _, _) :: rw2 == c.cookieStateRW))
 //@   ensures later_writes_never_panic: c.hasWritten ==> !panics
 //@   ensures failed_flush_releases_nothing: each CS.WriteState(_, _, _, _) -> ?e => e != nil ==> (!emits Write(_, _) && result.1 == e)
 //@
